@@ -19,9 +19,9 @@ from sx import Sym, Str
 
 PROP = "C09"
 PROP_FILE = "C09_SchemaSyn"
-THEOREMS = ["c09_reference_form_insensitive_partial", "c09_reference_form_types_partial",
+THEOREMS = ["c09_json_roundtrip", "c09_reference_form_insensitive_partial", "c09_reference_form_types_partial",
             "c09_resolve_order_independent_partial", "c09_validation_same",
-            "c09_cedar_roundtrip_refuted"]
+            "c09_cedar_roundtrip_refuted", "c09_cedar_roundtrip_types_partial", "c09_cedar_roundtrip_refuted_action"]
 
 MANIFEST = {
     "text": "Schema fragments with the three reference forms (Entity / CommonRef / EntityOrCommon), `resolve` transcribed from "
@@ -32,7 +32,8 @@ MANIFEST = {
             "implementation-level round-trip oracle: translate -> load -> dump equal, both directions and twice, and identical "
             "validation verdicts.",
     "technique": "proof (Coq) + correspondence by differential execution + round-trip / metamorphic oracle on the implementation",
-    "note": "findings: to_cedarschema ignores entity/common-type name collisions in the EMPTY namespace (key C09:empty-ns-collision); "
+    "note": "findings: to_cedarschema ignores entity/common-type name collisions in the EMPTY namespace (key C09:empty-ns-collision) "
+            "and between a common type `Action` and the implicit action entity type (key C09:action-type-collision); "
             "drops additionalAttributes (key C09:open-record-dropped, experimental partial-validate only); drops resourceTypes/context "
             "of an action whose principalTypes (or resourceTypes) list is empty (key C09:appliesTo-empty-list).",
 }
@@ -40,6 +41,7 @@ MANIFEST = {
 KEY_COLLISION = "C09:empty-ns-collision"
 KEY_OPEN = "C09:open-record-dropped"
 KEY_APPLIES = "C09:appliesTo-empty-list"
+KEY_ACTION_COLLISION = "C09:action-type-collision"
 
 
 # ------------------------------------------------------------------ canonical forms
@@ -279,9 +281,16 @@ def has_partial_applies(frag):
     return False
 
 
+def has_action_type_collision(frag):
+    """a common type named `Action` in a namespace that declares actions (the implicit entity type NS::Action)"""
+    return any(ns["actions"] and any(c[0] == "Action" for c in ns["commons"]) for ns in frag)
+
+
 def finding_key(frag):
     if has_empty_ns_collision(frag):
         return KEY_COLLISION
+    if has_action_type_collision(frag):
+        return KEY_ACTION_COLLISION
     if has_open_record(frag):
         return KEY_OPEN
     if has_partial_applies(frag):
@@ -301,6 +310,10 @@ def probes():
     out.append(Case("finding-appliesTo-empty-principals",
                     [SS._ns((), entities=[("U", SS._std())],
                             actions=[("a", {"memberOf": None, "appliesTo": ([], [("U",)], SS._rec(("x", P("Long"))))})])], "probe"))
+    out.append(Case("finding-action-type-collision",
+                    [SS._ns(("NS",), commons=[("Action", P("Long"))],
+                            entities=[("U", SS._std(shape=SS._rec(("a", ("entity", ("Action",))))))],
+                            actions=[("act", {"memberOf": None, "appliesTo": None})])], "probe"))
     return out
 
 
@@ -575,7 +588,10 @@ def run(rep, tier, seed):
             else:
                 m2c = canon_model(m2)
                 if "ok" not in tr:
-                    rbad = "implementation: printer refuses (%s); model translated" % tr.get("translate_error")
+                    # the model follows the code as pinned; on the inputs of a keyed finding a refusing printer is the FIXED
+                    # behaviour and is accepted as well
+                    if key is None:
+                        rbad = "implementation: printer refuses (%s); model translated" % tr.get("translate_error")
                 else:
                     o1 = outcome(c.res["load(J2C)"])
                     if m2c[0] != o1[0]:
